@@ -2,10 +2,10 @@
   C15 — MIDI transport: in order, exactly once; device removal always completes.
   Theorems about the transition systems of `Hidi.Fan`.
 -/
-import Hidi.Fan
+import HidiProofs.FanLemmas
 import Hidi.Gen.Tables
 namespace Hidi.Props.C15
-open Hidi Hidi.Fan
+open Hidi Hidi.Fan Hidi.FanLemmas Hidi.EngineSim
 
 /-- the source-dependent parameter of the fan-out model, regenerated from fan.go on every run: the broadcast send is
     one case of a `select` whose other case is a per-output signal -/
@@ -27,5 +27,131 @@ theorem C15_despawn_blocks_unguarded :
 theorem C15_despawn_completes_on_wedge :
     let s := settleAll (run (init true 1) wedge)
     s.inflight = none ∧ enabled s (.despawn 0) = true ∧ (step s (.despawn 0)).pendingDespawn = [] := by decide
+
+/-! ### exactly once, in order, whatever the schedule -/
+
+/-- **fan-out, every schedule**: for every output that has not been told to leave, what its consumer has been given
+    (received ++ buffered) is exactly the block of the dispatch log from its spawn up to now — without the message in
+    flight if the dispatcher has not reached this output yet.  No loss, no duplicate, no reordering; the statement for
+    one output does not mention any other output, so attaching or detaching others cannot affect it. -/
+theorem C15_fan_exactly_once (guarded : Bool) (cap : Nat) (steps : List Step) :
+    let s := run (init guarded cap) steps
+    ∀ id o, alookup id s.outputs = some o → o.leaving = false →
+      o.got = (s.log.drop o.since).take (s.log.length - o.since - pendingBit s id) := by
+  intro s id o hl hlv
+  exact ((run_inv steps _ (inv_init guarded cap)).outs id o hl hlv).1
+
+/-- when the dispatcher is idle every connected output has been given everything dispatched since it was spawned -/
+theorem C15_fan_quiescent (guarded : Bool) (cap : Nat) (steps : List Step) :
+    let s := run (init guarded cap) steps
+    s.inflight = none → ∀ id o, alookup id s.outputs = some o → o.leaving = false → o.got = s.log.drop o.since := by
+  intro s hq id o hl hlv
+  have h := C15_fan_exactly_once guarded cap steps id o hl hlv
+  have hb : pendingBit s id = 0 := by simp [pendingBit, todoOf, hq]
+  rw [hb, Nat.sub_zero] at h
+  rw [h]
+  exact List.take_of_length_le (by simp)
+
+/-- what a consumer receives is always a prefix of what it has been given: it receives in dispatch order -/
+theorem C15_received_prefix (o : Output) : o.recvd <+: o.got := ⟨o.buf, rfl⟩
+
+/-- output ids are never shared: one live output per id, in every reachable state -/
+theorem C15_ids_distinct (guarded : Bool) (cap : Nat) (steps : List Step) :
+    (akeys (run (init guarded cap) steps).outputs).Nodup :=
+  (run_inv steps _ (inv_init guarded cap)).keys
+
+/-! ### the output relay: every emitter's messages reach the port exactly once, in its emission order -/
+
+def RInv (orig : List (List (Nat × Nat))) (r : Relay) : Prop :=
+  r.todo.length = orig.length ∧
+  ∀ i, i < orig.length →
+    (∀ m ∈ r.todo.getD i [], m.1 = i) ∧
+    (r.port ++ r.queue).filter (fun m => m.1 = i) ++ r.todo.getD i [] = orig.getD i []
+
+theorem rstep_inv (orig : List (List (Nat × Nat))) (r : Relay) (x : RStep) (h : RInv orig r) : RInv orig (rstep r x) := by
+  obtain ⟨hlen, hall⟩ := h
+  cases x with
+  | relay =>
+    simp only [rstep]
+    cases hq : r.queue with
+    | nil => simp only; exact ⟨hlen, hall⟩
+    | cons m q =>
+      simp only
+      refine ⟨hlen, fun i hi => ?_⟩
+      obtain ⟨h1, h2⟩ := hall i hi
+      refine ⟨h1, ?_⟩
+      rw [hq] at h2
+      simpa [List.append_assoc] using h2
+  | emit j =>
+    simp only [rstep]
+    cases hj : r.todo[j]? with
+    | none => simp only; exact ⟨hlen, hall⟩
+    | some l =>
+      cases l with
+      | nil => simp only; exact ⟨hlen, hall⟩
+      | cons m rest =>
+        simp only
+        split
+        · have hjlt : j < r.todo.length := by
+            by_cases hx : j < r.todo.length
+            · exact hx
+            · rw [List.getElem?_eq_none (by omega)] at hj; cases hj
+          have hgetj : r.todo.getD j [] = m :: rest := by simp [List.getD, hj]
+          refine ⟨by simp [hlen], fun i hi => ?_⟩
+          obtain ⟨h1, h2⟩ := hall i hi
+          by_cases hij : i = j
+          · subst hij
+            have hm : m.1 = i := h1 m (by rw [hgetj]; exact List.mem_cons_self)
+            have hset : (r.todo.set i rest).getD i [] = rest := by
+              simp [List.getD, List.getElem?_set, hjlt]
+            rw [hset]
+            refine ⟨fun x hx => h1 x (by rw [hgetj]; exact List.mem_cons_of_mem _ hx), ?_⟩
+            rw [hgetj] at h2
+            rw [← h2]
+            simp [List.filter_append, hm, List.append_assoc]
+          · have hset : (r.todo.set j rest).getD i [] = r.todo.getD i [] := by
+              simp [List.getD, List.getElem?_set, Ne.symm hij]
+            rw [hset]
+            refine ⟨h1, ?_⟩
+            have hm : m.1 = j := (hall j (by omega)).1 m (by rw [hgetj]; exact List.mem_cons_self)
+            have hne : ¬ (m.1 = i) := by rw [hm]; exact fun e => hij e.symm
+            rw [← h2]
+            simp [List.filter_append, hne, List.append_assoc]
+        · exact ⟨hlen, hall⟩
+
+theorem rrun_inv (orig : List (List (Nat × Nat))) (xs : List RStep) : ∀ r, RInv orig r → RInv orig (rrun r xs) := by
+  induction xs with
+  | nil => intro r h; exact h
+  | cons x xs ih => intro r h; exact ih _ (rstep_inv orig r x h)
+
+/-- **relay, every schedule**: at any moment, for every emitter, what has reached the port or waits in the channel,
+    restricted to that emitter's messages, followed by what it has not emitted yet, is exactly its programme — each
+    message exactly once, in emission order, unaltered (messages tagged with their emitter) -/
+theorem C15_relay_order (orig : List (List (Nat × Nat))) (cap : Nat)
+    (htag : ∀ i, i < orig.length → ∀ m ∈ orig.getD i [], m.1 = i) (xs : List RStep) (i : Nat) (hi : i < orig.length) :
+    let r := rrun { todo := orig, cap := cap } xs
+    (r.port ++ r.queue).filter (fun m => m.1 = i) ++ r.todo.getD i [] = orig.getD i [] := by
+  intro r
+  have h0 : RInv orig { todo := orig, cap := cap } := ⟨rfl, fun j hj => ⟨htag j hj, by simp⟩⟩
+  exact ((rrun_inv orig xs _ h0).2 i hi).2
+
+/-- when everything has been emitted and relayed, the port has each emitter's programme as a subsequence in order -/
+theorem C15_relay_complete (orig : List (List (Nat × Nat))) (cap : Nat)
+    (htag : ∀ i, i < orig.length → ∀ m ∈ orig.getD i [], m.1 = i) (xs : List RStep) (i : Nat) (hi : i < orig.length) :
+    let r := rrun { todo := orig, cap := cap } xs
+    r.queue = [] → r.todo.getD i [] = [] → r.port.filter (fun m => m.1 = i) = orig.getD i [] := by
+  intro r hq ht
+  have := C15_relay_order orig cap htag xs i hi
+  simp only [] at this
+  rw [hq, ht] at this
+  simpa using this
+
+/-! ### non-vacuity -/
+
+example : (run (init true 2) [.spawn, .feed 1, .feed 2, .take, .send, .unlock, .spawn, .take, .send, .send, .unlock,
+    .consume 0, .consume 1]).outputs.map (fun p => (p.1, p.2.got)) = [(0, [1, 2]), (1, [2])] := by decide
+
+example : (rrun { todo := [[(0, 1), (0, 2)], [(1, 1)]], cap := 1 } [.emit 0, .emit 1, .relay, .emit 1, .relay, .emit 0, .relay]).port =
+    [(0, 1), (1, 1), (0, 2)] := by decide
 
 end Hidi.Props.C15
